@@ -4,6 +4,8 @@ From PV Require Import Sanction.Sanction.
 Import ListNotations.
 Open Scope Z_scope.
 
+Ltac splits := repeat match goal with |- _ /\ _ => split end.
+
 (** * Lists of addresses and temporary entries *)
 
 Lemma memN_In : forall a l, memN a l = true <-> In a l.
@@ -205,6 +207,16 @@ Proof.
 Qed.
 
 (** * The invariant *)
+Definition nn2 (x : amt2) : Prop := 0 <= fst x /\ 0 <= snd x.
+Definition bal_le (s s' : state) (x : N) : Prop := bal s x <= bal s' x /\ balb s x <= balb s' x.
+Lemma bal_le_refl : forall s x, bal_le s s x.
+Proof. intros; unfold bal_le; lia. Qed.
+Lemma bal_le_trans : forall s1 s2 s3 x, bal_le s1 s2 x -> bal_le s2 s3 x -> bal_le s1 s3 x.
+Proof. unfold bal_le; intros; lia. Qed.
+Lemma nonneg2_nn2 : forall x, nonneg2 x = true <-> nn2 x.
+Proof. intros [a b]; unfold nonneg2, nn2; cbn [fst snd]; rewrite andb_true_iff, !Z.leb_le; tauto. Qed.
+
+
 Record Inv (c : config) (s : state) : Prop := {
   inv_temp_fresh : forall a p b, In (a, p, b) (temps s) -> (p < next_id s)%N;
   inv_live_fresh : forall pr, In pr (props s) -> (p_id pr < next_id s)%N;
@@ -212,10 +224,10 @@ Record Inv (c : config) (s : state) : Prop := {
                                    In a (msg_addrs (p_msgs pr));
   inv_unsanct_temp : forall a p, In (a, p, true) (temps s) -> unsanct c a = false;
   inv_unsanct_perm : forall a, In a (perm s) -> unsanct c a = false;
-  inv_deps_nonneg : forall pr d, In pr (props s) -> In d (p_deps pr) -> 0 <= snd d;
+  inv_deps_nonneg : forall pr d, In pr (props s) -> In d (p_deps pr) -> 0 <= fst (snd d) /\ 0 <= snd (snd d);
   inv_same_msgs : forall pr pr', In pr (props s) -> In pr' (props s) -> p_id pr = p_id pr' ->
                                  p_msgs pr = p_msgs pr';
-  inv_params_nonneg : 0 <= smin s /\ 0 <= umin s }.
+  inv_params_nonneg : (0 <= fst (smin s) /\ 0 <= snd (smin s)) /\ (0 <= fst (umin s) /\ 0 <= snd (umin s)) }.
 
 Lemma Inv_core : forall c s s', core s' = core s -> Inv c s -> Inv c s'.
 Proof.
@@ -239,62 +251,62 @@ Proof.
   - rewrite Hs, Hu; exact I8.
 Qed.
 
-Lemma Inv_init : forall c sm um fid t0 b, 0 <= sm -> 0 <= um -> Inv c (init sm um fid t0 b).
-Proof. intros c sm um fid t0 b Hs Hu; constructor; cbn; intros; try contradiction. split; assumption. Qed.
+Lemma Inv_init : forall c sm um fid t0 b bb, nn2 sm -> nn2 um -> Inv c (init sm um fid t0 b bb).
+Proof. intros c sm um fid t0 b bb Hs Hu; constructor; cbn; intros; try contradiction. split; assumption. Qed.
 
 (** * Bank primitives *)
 Lemma debit_spec : forall c s a amt s1, debit c s a amt = Some s1 ->
-  core s1 = core s /\ is_sanctioned c s a = false /\ 0 <= amt /\
-  (forall x, x <> a -> bal s1 x = bal s x) /\ bal s1 a = bal s a - amt.
+  core s1 = core s /\ is_sanctioned c s a = false /\ nn2 amt /\
+  (forall x, x <> a -> bal s1 x = bal s x /\ balb s1 x = balb s x).
 Proof.
   intros c s a amt s1 H; unfold debit in H.
-  destruct (amt <? 0) eqn:E1; [discriminate|].
-  destruct (bal s a <? amt) eqn:E2; [discriminate|].
+  destruct (nonneg2 amt) eqn:E1; cbn [negb] in H; [|discriminate].
+  destruct (le2 amt (bal s a, balb s a)) eqn:E2; cbn [negb] in H; [|discriminate].
   destruct (is_sanctioned c s a) eqn:E3; [discriminate|].
-  inversion H; subst; clear H. apply Z.ltb_ge in E1.
-  repeat split; try assumption; cbn [bal set_bal]; unfold upd.
-  - intros x Hx; apply N.eqb_neq in Hx; rewrite Hx; reflexivity.
-  - rewrite N.eqb_refl; reflexivity.
+  inversion H; subst; clear H. apply nonneg2_nn2 in E1.
+  splits; try assumption; try reflexivity.
+  intros x Hx; cbn [bal balb set_bal]; unfold upd; apply N.eqb_neq in Hx; rewrite Hx; split; reflexivity.
 Qed.
 
 Lemma debit_keeps_sanctioned : forall c s a amt s1 x, debit c s a amt = Some s1 ->
-  is_sanctioned c s x = true -> bal s1 x = bal s x.
+  is_sanctioned c s x = true -> bal s1 x = bal s x /\ balb s1 x = balb s x.
 Proof.
-  intros c s a amt s1 x H Hx; destruct (debit_spec _ _ _ _ _ H) as [_ [Hns [_ [Ho _]]]].
+  intros c s a amt s1 x H Hx; destruct (debit_spec _ _ _ _ _ H) as [_ [Hns [_ Ho]]].
   apply Ho; intros ->; congruence.
 Qed.
 
 Lemma credit_core : forall s a v, core (credit s a v) = core s.
 Proof. reflexivity. Qed.
 
-Lemma credit_bal : forall s a v x, 0 <= v -> bal s x <= bal (credit s a v) x.
+Lemma credit_bal : forall s a v x, nn2 v -> bal_le s (credit s a v) x.
 Proof.
-  intros s a v x Hv; cbn [credit bal set_bal]; unfold upd.
+  intros s a v x [Hv1 Hv2]; unfold bal_le; cbn [credit bal balb set_bal]; unfold upd.
   destruct (N.eqb x a) eqn:E; [apply N.eqb_eq in E; subst; lia | lia].
 Qed.
 
-Lemma refund_all_spec : forall deps s, (forall d, In d deps -> 0 <= snd d) ->
-  core (refund_all s deps) = core s /\ forall x, bal s x <= bal (refund_all s deps) x.
+Lemma refund_all_spec : forall deps s, (forall d, In d deps -> nn2 (snd d)) ->
+  core (refund_all s deps) = core s /\ forall x, bal_le s (refund_all s deps) x.
 Proof.
   induction deps as [|d r IH]; intros s Hnn.
-  - split; [reflexivity | intros; cbn; lia].
+  - split; [reflexivity | intros; cbn; apply bal_le_refl].
   - change (refund_all s (d :: r)) with (refund_all (credit s (fst d) (snd d)) r).
     destruct (IH (credit s (fst d) (snd d)) (fun d0 H0 => Hnn d0 (or_intror H0))) as [Hc Hb].
     split; [rewrite Hc; reflexivity|].
-    intros x; specialize (Hb x). pose proof (credit_bal s (fst d) (snd d) x (Hnn d (or_introl eq_refl))). lia.
+    intros x; specialize (Hb x). pose proof (credit_bal s (fst d) (snd d) x (Hnn d (or_introl eq_refl))).
+    eapply bal_le_trans; eauto.
 Qed.
 
 Lemma debit_all_spec : forall c ins s s1, debit_all c s ins = Some s1 ->
-  core s1 = core s /\ forall x, is_sanctioned c s x = true -> bal s1 x = bal s x.
+  core s1 = core s /\ forall x, is_sanctioned c s x = true -> bal s1 x = bal s x /\ balb s1 x = balb s x.
 Proof.
   intros c; induction ins as [|[a v] r IH]; intros s s1 H; cbn [debit_all] in H.
-  - inversion H; subst; split; [reflexivity | reflexivity].
-  - destruct (debit c s a v) as [s2|] eqn:E; [|discriminate].
+  - inversion H; subst; split; [reflexivity | split; reflexivity].
+  - destruct (debit c s a (v, 0)) as [s2|] eqn:E; [|discriminate].
     destruct (IH _ _ H) as [Hc Hb]. destruct (debit_spec _ _ _ _ _ E) as [Hc2 _].
     split; [rewrite Hc; exact Hc2|].
-    intros x Hx. rewrite Hb.
-    + eapply debit_keeps_sanctioned; eauto.
-    + unfold core in Hc2; inversion Hc2. rewrite (is_sanctioned_core c s s2 x); auto.
+    intros x Hx. destruct (debit_keeps_sanctioned _ _ _ _ _ x E Hx) as [K1 K2].
+    destruct (Hb x) as [K3 K4]; [|split; congruence].
+    unfold core in Hc2; inversion Hc2. rewrite (is_sanctioned_core c s s2 x); auto.
 Qed.
 
 (** * Hooks and message execution *)
@@ -312,11 +324,11 @@ Proof.
     assert (Hstep : forall a p b, In (a, p, b) l1 ->
               In (a, p, b) l0 \/ (p = p_id pr /\ In a (msg_addrs [m]) /\ (b = true -> unsanct c a = false))).
     { clear -H1. cbn [hook_msg] in H1. intros a p b Hin. destruct m as [addrs|addrs|x y]; cbn [msg_addrs flat_map]; rewrite app_nil_r.
-      - destruct (negb (smin s =? 0) && (smin s <=? total_deposit pr)).
+      - destruct (negb (zero2 (smin s)) && le2 (smin s) (total_deposit pr)).
         + destruct (add_temps_In _ _ _ _ _ _ H1 _ _ _ Hin) as [Ho|[E1 [E2 [E3 E4]]]]; [left; exact Ho|].
           right; split; [exact E1 | split; [exact E3 | intros _; apply E4; reflexivity]].
         + inversion H1; subst; left; exact Hin.
-      - destruct (negb (umin s =? 0) && (umin s <=? total_deposit pr)).
+      - destruct (negb (zero2 (umin s)) && le2 (umin s) (total_deposit pr)).
         + destruct (add_temps_In _ _ _ _ _ _ H1 _ _ _ Hin) as [Ho|[E1 [E2 [E3 E4]]]]; [left; exact Ho|].
           right; split; [exact E1 | split; [exact E3 | intros Hb; congruence]].
         + inversion H1; subst; left; exact Hin.
@@ -329,7 +341,6 @@ Proof.
       unfold msg_addrs in *; cbn [flat_map]. apply in_or_app; right; exact E2.
 Qed.
 
-Ltac splits := repeat match goal with |- _ /\ _ => split end.
 
 Lemma add_temps_incl : forall c b pid addrs l l', add_temps c b pid addrs l = Some l' -> incl l l'.
 Proof.
@@ -347,14 +358,14 @@ Proof.
   - destruct (hook_msg c s pr (Some l) m) as [l2|] eqn:Em.
     + eapply incl_tran; [|eapply IH; exact E].
       cbn [hook_msg] in Em. destruct m as [addrs|addrs|x y].
-      * destruct (negb (smin s =? 0) && (smin s <=? total_deposit pr)); [eapply add_temps_incl; eauto | inversion Em; apply incl_refl].
-      * destruct (negb (umin s =? 0) && (umin s <=? total_deposit pr)); [eapply add_temps_incl; eauto | inversion Em; apply incl_refl].
+      * destruct (negb (zero2 (smin s)) && le2 (smin s) (total_deposit pr)); [eapply add_temps_incl; eauto | inversion Em; apply incl_refl].
+      * destruct (negb (zero2 (umin s)) && le2 (umin s) (total_deposit pr)); [eapply add_temps_incl; eauto | inversion Em; apply incl_refl].
       * inversion Em; apply incl_refl.
     + exfalso. clear -E. induction r as [|m2 r2 IH2]; cbn [fold_left] in E; [discriminate|]. apply IH2; exact E.
 Qed.
 
 Lemma run_hook_spec : forall c s pr s', run_hook c s pr = Some s' ->
-  perm s' = perm s /\ props s' = props s /\ next_id s' = next_id s /\ bal s' = bal s /\
+  perm s' = perm s /\ props s' = props s /\ next_id s' = next_id s /\ bal s' = bal s /\ balb s' = balb s /\
   smin s' = smin s /\ umin s' = umin s /\
   incl (temps s) (temps s') /\
   forall a p b, In (a, p, b) (temps s') ->
@@ -362,7 +373,7 @@ Lemma run_hook_spec : forall c s pr s', run_hook c s pr = Some s' ->
 Proof.
   intros c s pr s' H; unfold run_hook in H.
   destruct (fold_left (hook_msg c s pr) (p_msgs pr) (Some (temps s))) as [l|] eqn:E; [|discriminate].
-  inversion H; subst; clear H. cbn [perm props next_id bal temps smin umin set_temps].
+  inversion H; subst; clear H. cbn [perm props next_id bal balb temps smin umin set_temps].
   destruct (hook_fold _ _ _ _ _ _ E) as [l0 [H0 Hin]]; inversion H0; subst.
   splits; try reflexivity.
   - eapply hook_fold_incl; exact E.
@@ -370,35 +381,35 @@ Proof.
 Qed.
 
 Lemma exec_msg_spec : forall c s m s', exec_msg c s m = Some s' ->
-  props s' = props s /\ next_id s' = next_id s /\ bal s' = bal s /\ now s' = now s /\
-  (0 <= smin s /\ 0 <= umin s -> 0 <= smin s' /\ 0 <= umin s') /\
+  props s' = props s /\ next_id s' = next_id s /\ bal s' = bal s /\ balb s' = balb s /\ now s' = now s /\
+  (nn2 (smin s) /\ nn2 (umin s) -> nn2 (smin s') /\ nn2 (umin s')) /\
   incl (temps s') (temps s) /\
   (forall a, In a (perm s') -> In a (perm s) \/ unsanct c a = false) /\
   (forall a p b, In a (msg_addrs [m]) -> ~ In (a, p, b) (temps s')).
 Proof.
   intros c s m s' H; destruct m as [addrs|addrs|x y]; cbn [exec_msg] in H.
   - unfold sanction_addrs in H. destruct (existsb (unsanct c) addrs) eqn:E; [discriminate|].
-    inversion H; subst; clear H. cbn [props next_id bal now temps perm smin umin set_temps set_perm]. splits; try reflexivity.
+    inversion H; subst; clear H. cbn [props next_id bal balb now temps perm smin umin set_temps set_perm]. splits; try reflexivity.
     + tauto.
     + intros e He; eapply In_del_addr; exact He.
     + intros a Ha; apply in_app_or in Ha; destruct Ha as [Ha|Ha]; [right; eapply existsb_unsanct_false; eauto | left; exact Ha].
     + intros a p b Ha Hin; cbn [msg_addrs flat_map] in Ha; rewrite app_nil_r in Ha. apply In_del_addr_not in Hin; contradiction.
-  - inversion H; subst; clear H. unfold unsanction_addrs. cbn [props next_id bal now temps perm smin umin set_temps set_perm]. splits; try reflexivity.
+  - inversion H; subst; clear H. unfold unsanction_addrs. cbn [props next_id bal balb now temps perm smin umin set_temps set_perm]. splits; try reflexivity.
     + tauto.
     + intros e He; eapply In_del_addr; exact He.
     + intros a Ha; apply filter_In in Ha; left; tauto.
     + intros a p b Ha Hin; cbn [msg_addrs flat_map] in Ha; rewrite app_nil_r in Ha. apply In_del_addr_not in Hin; contradiction.
-  - destruct ((0 <=? x) && (0 <=? y)) eqn:Exy; [|discriminate]. inversion H; subst; clear H.
-    cbn [props next_id bal now temps perm smin umin set_params]. splits; try reflexivity.
-    + intros _; apply andb_true_iff in Exy; destruct Exy as [Ex Ey]; apply Z.leb_le in Ex, Ey; tauto.
+  - destruct (nonneg2 x && nonneg2 y) eqn:Exy; [|discriminate]. inversion H; subst; clear H.
+    cbn [props next_id bal balb now temps perm smin umin set_params]. splits; try reflexivity.
+    + intros _; apply andb_true_iff in Exy; destruct Exy as [Ex Ey]; apply nonneg2_nn2 in Ex, Ey; tauto.
     + apply incl_refl.
     + intros a Ha; left; exact Ha.
     + intros a p b Ha; contradiction.
 Qed.
 
 Lemma exec_msgs_spec : forall c ms s s', exec_msgs c s ms = Some s' ->
-  props s' = props s /\ next_id s' = next_id s /\ bal s' = bal s /\ now s' = now s /\
-  (0 <= smin s /\ 0 <= umin s -> 0 <= smin s' /\ 0 <= umin s') /\
+  props s' = props s /\ next_id s' = next_id s /\ bal s' = bal s /\ balb s' = balb s /\ now s' = now s /\
+  (nn2 (smin s) /\ nn2 (umin s) -> nn2 (smin s') /\ nn2 (umin s')) /\
   incl (temps s') (temps s) /\
   (forall a, In a (perm s') -> In a (perm s) \/ unsanct c a = false) /\
   (forall a p b, In a (msg_addrs ms) -> ~ In (a, p, b) (temps s')).
@@ -410,8 +421,8 @@ Proof.
     + intros a Ha; left; exact Ha.
     + intros a p b Ha; contradiction.
   - destruct (exec_msg c s m) as [s1|] eqn:E; [|discriminate].
-    destruct (exec_msg_spec _ _ _ _ E) as [A1 [A2 [A3 [A4 [A8 [A5 [A6 A7]]]]]]].
-    destruct (IH _ _ H) as [B1 [B2 [B3 [B4 [B8 [B5 [B6 B7]]]]]]].
+    destruct (exec_msg_spec _ _ _ _ E) as [A1 [A2 [A3 [A3b [A4 [A8 [A5 [A6 A7]]]]]]]].
+    destruct (IH _ _ H) as [B1 [B2 [B3 [B3b [B4 [B8 [B5 [B6 B7]]]]]]]].
     splits; try congruence.
     + tauto.
     + eapply incl_tran; eauto.
@@ -424,7 +435,7 @@ Qed.
 Lemma Inv_exec : forall c s s', Inv c s ->
   props s' = props s -> next_id s' = next_id s -> incl (temps s') (temps s) ->
   (forall a, In a (perm s') -> In a (perm s) \/ unsanct c a = false) ->
-  (0 <= smin s /\ 0 <= umin s -> 0 <= smin s' /\ 0 <= umin s') -> Inv c s'.
+  (nn2 (smin s) /\ nn2 (umin s) -> nn2 (smin s') /\ nn2 (umin s')) -> Inv c s'.
 Proof.
   intros c s s' [I1 I2 I3 I4 I5 I6 I7 I8] Hr Hn Ht Hp Hsu; constructor; rewrite ?Hr, ?Hn.
   - intros a p b H; eapply I1; apply Ht; exact H.
@@ -439,7 +450,7 @@ Qed.
 
 Lemma Inv_run_hook : forall c s pr s', Inv c s -> In pr (props s) -> run_hook c s pr = Some s' -> Inv c s'.
 Proof.
-  intros c s pr s' HI Hpr H. destruct (run_hook_spec _ _ _ _ H) as [Hp [Hr [Hn [_ [Hs [Hu [_ Ht]]]]]]].
+  intros c s pr s' HI Hpr H. destruct (run_hook_spec _ _ _ _ H) as [Hp [Hr [Hn [_ [_ [Hs [Hu [_ Ht]]]]]]]].
   destruct HI as [I1 I2 I3 I4 I5 I6 I7 I8]; constructor; rewrite ?Hp, ?Hr, ?Hn, ?Hs, ?Hu; auto.
   - intros a p b Hin; destruct (Ht _ _ _ Hin) as [Ho|[E1 _]]; [eapply I1; exact Ho | subst; apply I2; exact Hpr].
   - intros a p b pr' Hin Hpr' Hid; destruct (Ht _ _ _ Hin) as [Ho|[E1 [E2 _]]]; [eapply I3; eauto|].
@@ -447,13 +458,15 @@ Proof.
   - intros a p Hin; destruct (Ht _ _ _ Hin) as [Ho|[_ [_ E3]]]; [eapply I4; exact Ho | apply E3; reflexivity].
 Qed.
 
-Lemma add_dep_nonneg : forall who amt l, 0 <= amt -> (forall d, In d l -> 0 <= snd d) ->
-  forall d, In d (add_dep who amt l) -> 0 <= snd d.
+Lemma add_dep_nonneg : forall who amt l, nn2 amt -> (forall d, In d l -> nn2 (snd d)) ->
+  forall d, In d (add_dep who amt l) -> nn2 (snd d).
 Proof.
   intros who amt l Ha; induction l as [|[w v] r IH]; intros Hl d Hin; cbn [add_dep] in Hin.
   - destruct Hin as [Hin|[]]; subst; exact Ha.
   - destruct (N.eqb w who).
-    + destruct Hin as [Hin|Hin]; [subst; cbn [snd]; specialize (Hl (w, v) (or_introl eq_refl)); cbn [snd] in Hl; lia | apply Hl; right; exact Hin].
+    + destruct Hin as [Hin|Hin]; [|apply Hl; right; exact Hin].
+      subst; cbn [snd]. specialize (Hl (w, v) (or_introl eq_refl)); cbn [snd] in Hl.
+      unfold nn2, add2 in *; cbn [fst snd]; lia.
     + destruct Hin as [Hin|Hin]; [apply Hl; left; exact Hin | apply IH; [intros d0 H0; apply Hl; right; exact H0 | exact Hin]].
 Qed.
 
@@ -469,7 +482,7 @@ Proof. intros s s' p H; unfold is_live; rewrite H; reflexivity. Qed.
 (** Replacing a live proposal by one with the same id, messages and non-negative deposits. *)
 Lemma Inv_put_prop : forall c s s' pr pr2,
   Inv c s -> In pr (props s) -> p_id pr2 = p_id pr -> p_msgs pr2 = p_msgs pr ->
-  (forall d, In d (p_deps pr2) -> 0 <= snd d) ->
+  (forall d, In d (p_deps pr2) -> nn2 (snd d)) ->
   perm s' = perm s -> temps s' = temps s -> next_id s' = next_id s ->
   smin s' = smin s -> umin s' = umin s ->
   props s' = put_prop pr2 (props s) -> Inv c s'.
@@ -494,12 +507,12 @@ Qed.
 (** [good c s s' cancelled]: the facts every theorem of C06 needs about one accepted step. *)
 Definition good (c : config) (s s' : state) (cancelled : N -> Prop) : Prop :=
   Inv c s' /\
-  (forall x, is_sanctioned c s x = true -> bal s x <= bal s' x) /\
+  (forall x, is_sanctioned c s x = true -> bal_le s s' x) /\
   (forall a p b, In (a, p, b) (temps s') -> In (a, p, b) (temps s) \/ is_live s' p = true) /\
   (forall p, is_live s p = true -> is_live s' p = false -> cancelled p \/ forall a b, ~ In (a, p, b) (temps s')).
 
 Lemma good_core : forall c s s' K, Inv c s -> core s' = core s ->
-  (forall x, is_sanctioned c s x = true -> bal s x <= bal s' x) -> good c s s' K.
+  (forall x, is_sanctioned c s x = true -> bal_le s s' x) -> good c s s' K.
 Proof.
   intros c s s' K HI Hc Hb. pose proof Hc as Hc'; unfold core in Hc'; inversion Hc' as [[Hp Ht Hr Hn Hs Hu]].
   unfold good; splits.
@@ -517,17 +530,17 @@ Proof.
   destruct (get_prop pid (props s)) as [pr|] eqn:Eg; [|discriminate].
   destruct (debit c s who amt) as [s1|] eqn:Ed; [|discriminate].
   destruct (get_prop_In _ _ _ Eg) as [Hpr Hpid].
-  destruct (debit_spec _ _ _ _ _ Ed) as [Hc1 [Hns [Hamt [Hbo Hba]]]].
+  destruct (debit_spec _ _ _ _ _ Ed) as [Hc1 [Hns [Hamt Hbo]]].
   unfold core in Hc1; inversion Hc1 as [[Hp1 Ht1 Hr1 Hn1 Hs1 Hu1]].
   remember (add_dep who amt (p_deps pr)) as deps.
   remember (match p_status pr with
-            | PDeposit => if c_gov_min c <=? total_deposit (with_deposit pr deps (p_status pr) (p_vote_end pr))
+            | PDeposit => if le2 (c_gov_min c) (total_deposit (with_deposit pr deps (p_status pr) (p_vote_end pr)))
                           then with_deposit pr deps PVoting (now s + vp)
                           else with_deposit pr deps (p_status pr) (p_vote_end pr)
             | PVoting => with_deposit pr deps (p_status pr) (p_vote_end pr)
             end) as pr2.
   assert (Hpr2 : p_id pr2 = p_id pr /\ p_msgs pr2 = p_msgs pr /\ p_deps pr2 = deps).
-  { subst pr2; destruct (p_status pr); [destruct (c_gov_min c <=? _)|]; cbn; auto. }
+  { subst pr2; destruct (p_status pr); [destruct (le2 (c_gov_min c) _)|]; cbn; auto. }
   destruct Hpr2 as [Hid [Hms Hdp]]. clear Heqpr2.
   set (s2 := set_props s1 (put_prop pr2 (props s1))) in *.
   assert (HI2 : Inv c s2).
@@ -538,13 +551,13 @@ Proof.
   assert (Hin2 : In pr2 (props s2)).
   { subst s2; cbn [props set_props]; rewrite Hr1. eapply In_put_prop_self; [exact Hpr | congruence]. }
   pose proof (Inv_run_hook _ _ _ _ HI2 Hin2 H) as HI'.
-  destruct (run_hook_spec _ _ _ _ H) as [Hp [Hr [Hn [Hb [_ [_ [Hinc Ht]]]]]]].
+  destruct (run_hook_spec _ _ _ _ H) as [Hp [Hr [Hn [Hb [Hbb [_ [_ [Hinc Ht]]]]]]]].
   assert (Hlive : forall q, is_live s' q = is_live s q).
   { intros q; unfold is_live; rewrite Hr; subst s2; cbn [props set_props]; rewrite Hr1. apply get_prop_put. }
   split; [|exact Hlive]. unfold good; splits.
   - exact HI'.
-  - intros x Hx; rewrite Hb; subst s2; cbn [bal set_props].
-    rewrite (debit_keeps_sanctioned _ _ _ _ _ x Ed Hx); lia.
+  - intros x Hx; destruct (debit_keeps_sanctioned _ _ _ _ _ x Ed Hx) as [K1 K2].
+    unfold bal_le; rewrite Hb, Hbb; subst s2; cbn [bal balb set_props]. rewrite K1, K2; lia.
   - intros a p b Hin; destruct (Ht _ _ _ Hin) as [Ho|[E1 _]].
     + left; subst s2; cbn [temps set_props] in Ho; rewrite Ht1 in Ho; exact Ho.
     + right; rewrite Hlive; unfold is_live; subst p; rewrite Hid, Hpid, Eg; reflexivity.
@@ -559,16 +572,20 @@ Qed.
 
 (** The submission hook sees an empty deposit: with non-negative minimums it adds nothing. *)
 Lemma hook_no_deposit : forall c s pr ms l,
-  total_deposit pr = 0 -> 0 <= smin s -> 0 <= umin s ->
+  total_deposit pr = (0, 0) -> nn2 (smin s) -> nn2 (umin s) ->
   fold_left (hook_msg c s pr) ms (Some l) = Some l.
 Proof.
   intros c s pr ms l Ht Hs Hu; induction ms as [|m r IH]; cbn [fold_left]; [reflexivity|].
+  assert (Hz : forall x, nn2 x -> negb (zero2 x) && le2 x (0, 0) = false).
+  { intros [a b] [Ha Hb]; unfold zero2, le2; cbn [fst snd] in *.
+    destruct (a =? 0) eqn:E1; destruct (b =? 0) eqn:E2; cbn [negb andb]; try reflexivity.
+    - apply Z.eqb_neq in E2. destruct (b <=? 0) eqn:E3; [apply Z.leb_le in E3; lia | apply andb_false_r].
+    - apply Z.eqb_neq in E1. destruct (a <=? 0) eqn:E3; [apply Z.leb_le in E3; lia | reflexivity].
+    - apply Z.eqb_neq in E1. destruct (a <=? 0) eqn:E3; [apply Z.leb_le in E3; lia | reflexivity]. }
   assert (Hm : hook_msg c s pr (Some l) m = Some l).
   { cbn [hook_msg]; rewrite Ht; destruct m as [addrs|addrs|x y]; [| |reflexivity].
-    - destruct (smin s =? 0) eqn:E; cbn [negb andb]; [reflexivity|].
-      apply Z.eqb_neq in E. destruct (smin s <=? 0) eqn:E2; [apply Z.leb_le in E2; lia | reflexivity].
-    - destruct (umin s =? 0) eqn:E; cbn [negb andb]; [reflexivity|].
-      apply Z.eqb_neq in E. destruct (umin s <=? 0) eqn:E2; [apply Z.leb_le in E2; lia | reflexivity]. }
+    - rewrite (Hz _ Hs); reflexivity.
+    - rewrite (Hz _ Hu); reflexivity. }
   rewrite Hm; exact IH.
 Qed.
 
@@ -624,10 +641,13 @@ Proof.
     intros d Hd; cbn in Hd; eapply (inv_deps_nonneg c s HI); eauto. }
   unfold good; splits.
   - exact HI'.
-  - intros x _; cbn; lia.
+  - intros x _; unfold bal_le; cbn [bal balb set_props]; lia.
   - intros a p b Hin; left; exact Hin.
   - intros p H1 H2; unfold is_live in *; cbn [props set_props] in H2; rewrite get_prop_put in H2; congruence.
 Qed.
+
+Lemma half_le : forall v, 0 <= v -> 0 <= v - v / 2.
+Proof. intros v Hv; assert (v / 2 <= v) by (apply Z.div_le_upper_bound; lia); lia. Qed.
 
 Lemma cancel_good : forall c s who pid s', Inv c s -> cancel s who pid = Some s' ->
   good c s s' (fun p => p = pid).
@@ -638,16 +658,17 @@ Proof.
   destruct (match p_status pr with PVoting => p_vote_end pr <? now s | PDeposit => false end); [discriminate|].
   inversion H; subst; clear H.
   destruct (get_prop_In _ _ _ Eg) as [Hpr Hpid].
-  set (deps := map (fun d => (fst d, snd d - snd d / 2)) (p_deps pr)) in *.
-  assert (Hnn : forall d, In d deps -> 0 <= snd d).
+  set (deps := map (fun d => (fst d, (fst (snd d) - fst (snd d) / 2, snd (snd d) - snd (snd d) / 2))) (p_deps pr)) in *.
+  assert (Hnn : forall d, In d deps -> nn2 (snd d)).
   { intros d Hd; subst deps; apply in_map_iff in Hd; destruct Hd as [d0 [Hd0 Hin0]]; subst d; cbn [snd].
-    pose proof (inv_deps_nonneg c s HI _ _ Hpr Hin0). assert (snd d0 / 2 <= snd d0) by (apply Z.div_le_upper_bound; lia). lia. }
+    destruct (inv_deps_nonneg c s HI _ _ Hpr Hin0) as [N1 N2].
+    unfold nn2; cbn [fst snd]; split; apply half_le; assumption. }
   destruct (refund_all_spec deps s Hnn) as [Hc Hb].
   unfold core in Hc; inversion Hc as [[Hp Ht Hr Hn Hs Hu]].
   unfold good; splits.
   - eapply (Inv_shrink c s); eauto; cbn [temps props perm next_id smin umin set_props]; rewrite ?Ht, ?Hp, ?Hr; try apply incl_refl.
     intros x Hx; apply In_remove_prop in Hx; tauto.
-  - intros x _; cbn [bal set_props]; apply Hb.
+  - intros x _; specialize (Hb x); unfold bal_le in *; cbn [bal balb set_props]; exact Hb.
   - intros a p b Hin; left; cbn [temps set_props] in Hin; rewrite Ht in Hin; exact Hin.
   - intros p H1 H2. destruct (N.eq_dec p pid) as [E|E]; [left; exact E|].
     unfold is_live in *; cbn [props set_props] in H2; rewrite Hr, (get_prop_remove_other pid p _ E) in H2; congruence.
@@ -656,14 +677,14 @@ Qed.
 (** Resolution steps of the EndBlocker: only credits, never a new entry. *)
 Definition good_res (c : config) (s s' : state) : Prop :=
   Inv c s' /\
-  (forall x, bal s x <= bal s' x) /\
+  (forall x, bal_le s s' x) /\
   incl (temps s') (temps s) /\
   (forall p, is_live s' p = true -> is_live s p = true) /\
   (forall p, is_live s p = true -> is_live s' p = false -> forall a b, ~ In (a, p, b) (temps s')).
 
 Lemma good_res_refl : forall c s, Inv c s -> good_res c s s.
 Proof.
-  intros c s HI; unfold good_res; splits; auto; try apply incl_refl; try (intros; lia).
+  intros c s HI; unfold good_res; splits; auto; try apply incl_refl; try (intros; apply bal_le_refl).
   intros p H1 H2; congruence.
 Qed.
 
@@ -671,7 +692,7 @@ Lemma good_res_trans : forall c s s1 s2, good_res c s s1 -> good_res c s1 s2 -> 
 Proof.
   intros c s s1 s2 [A1 [A2 [A3 [A4 A5]]]] [B1 [B2 [B3 [B4 B5]]]]; unfold good_res; splits.
   - exact B1.
-  - intros x; specialize (A2 x); specialize (B2 x); lia.
+  - intros x; eapply bal_le_trans; eauto.
   - eapply incl_tran; eauto.
   - intros p H; apply A4, B4; exact H.
   - intros p H1 H2 a b Hin. destruct (is_live s1 p) eqn:E.
@@ -716,7 +737,7 @@ Proof.
   - eapply (Inv_shrink c s); eauto; cbn [temps props perm next_id smin umin set_temps]; rewrite ?Ht, ?Hp, ?Hr; try apply incl_refl.
     + intros e He; eapply In_del_prop; exact He.
     + intros x Hx; apply In_remove_prop in Hx; tauto.
-  - intros x; cbn [bal set_temps]; apply Hb.
+  - intros x; specialize (Hb x); unfold bal_le in *; cbn [bal balb set_temps set_props] in *; exact Hb.
   - cbn [temps set_temps]; rewrite Ht; intros e He; eapply In_del_prop; exact He.
   - intros p H; eapply is_live_remove_mono; [|exact H]. cbn [props set_temps]; exact Hr.
   - intros p H1 H2 a b Hin.
@@ -741,7 +762,7 @@ Proof.
   { unfold good_res; splits.
     - eapply (Inv_shrink c s2); eauto; cbn [temps props perm next_id smin umin set_temps]; try apply incl_refl.
       intros e He; eapply In_del_prop; exact He.
-    - intros x; cbn [bal set_temps]; subst s2; cbn [bal set_props]; apply Hb.
+    - intros x; specialize (Hb x); unfold bal_le in *; subst s2; cbn [bal balb set_temps set_props] in *; exact Hb.
     - cbn [temps set_temps]; subst s2; cbn [temps set_props]; rewrite Ht; intros e He; eapply In_del_prop; exact He.
     - intros p H; eapply is_live_remove_mono; [|exact H]. cbn [props set_temps]; exact Hr2.
     - intros p H1 H2 a b Hin.
@@ -749,11 +770,11 @@ Proof.
       subst p. cbn [temps set_temps] in Hin. apply In_del_prop_not in Hin; congruence. }
   destruct (p_vote pr) as [[|]|]; try exact Hdel.
   destruct (exec_msgs c s2 (p_msgs pr)) as [s3|] eqn:Ex; [|exact Hdel].
-  destruct (exec_msgs_spec _ _ _ _ Ex) as [B1 [B2 [B3 [B4 [B8 [B5 [B6 B7]]]]]]].
+  destruct (exec_msgs_spec _ _ _ _ Ex) as [B1 [B2 [B3 [B3b [B4 [B8 [B5 [B6 B7]]]]]]]].
   assert (Ht2 : temps s2 = temps s) by (subst s2; cbn [temps set_props]; exact Ht).
   unfold good_res; splits.
   - eapply (Inv_exec c s2); eauto.
-  - intros x; rewrite B3; subst s2; cbn [bal set_props]; apply Hb.
+  - intros x; specialize (Hb x); unfold bal_le in *; rewrite B3, B3b; subst s2; cbn [bal balb set_props] in *; exact Hb.
   - rewrite <- Ht2; exact B5.
   - intros p H; eapply is_live_remove_mono; [|exact H]. rewrite B1; exact Hr2.
   - intros p H1 H2 a b Hin.
@@ -771,13 +792,13 @@ Proof.
   end.
 Qed.
 
-Lemma good_of_res : forall c s s' s'' K, good_res c s s' -> core s'' = core s' -> bal s'' = bal s' -> good c s s'' K.
+Lemma good_of_res : forall c s s' s'' K, good_res c s s' -> core s'' = core s' -> bal s'' = bal s' -> balb s'' = balb s' -> good c s s'' K.
 Proof.
-  intros c s s' s'' K [A1 [A2 [A3 [A4 A5]]]] Hc Hb.
+  intros c s s' s'' K [A1 [A2 [A3 [A4 A5]]]] Hc Hb Hbb.
   pose proof Hc as Hc'; unfold core in Hc'; inversion Hc' as [[Hp Ht Hr Hn Hs Hu]].
   unfold good; splits.
   - eapply Inv_core; eauto.
-  - intros x _; rewrite Hb; apply A2.
+  - intros x _; unfold bal_le; rewrite Hb, Hbb; apply A2.
   - intros a p b Hin; left; apply A3; rewrite <- Ht; exact Hin.
   - intros p H1 H2; right; intros a b Hin. rewrite (is_live_props s' s'' p Hr) in H2.
     apply (A5 p H1 H2 a b). rewrite <- Ht; exact Hin.
@@ -785,22 +806,27 @@ Qed.
 
 Lemma exec_msg_good : forall c s m s' K, Inv c s -> exec_msg c s m = Some s' -> good c s s' K.
 Proof.
-  intros c s m s' K HI H. destruct (exec_msg_spec _ _ _ _ H) as [B1 [B2 [B3 [B4 [B8 [B5 [B6 B7]]]]]]].
+  intros c s m s' K HI H. destruct (exec_msg_spec _ _ _ _ H) as [B1 [B2 [B3 [B3b [B4 [B8 [B5 [B6 B7]]]]]]]].
   unfold good; splits.
   - eapply (Inv_exec c s); eauto.
-  - intros x _; rewrite B3; lia.
+  - intros x _; unfold bal_le; rewrite B3, B3b; lia.
   - intros a p b Hin; left; apply B5; exact Hin.
   - intros p H1 H2; rewrite (is_live_props s s' p B1) in H2; congruence.
 Qed.
+
+Lemma keep_then_le : forall s s1 s2 x,
+  (bal s1 x = bal s x /\ balb s1 x = balb s x) -> bal_le s1 s2 x -> bal_le s s2 x.
+Proof. unfold bal_le; intros s s1 s2 x [H1 H2] [H3 H4]; lia. Qed.
 
 Lemma send_good : forall c s from to amt s' K, Inv c s -> send c s from to amt = Some s' -> good c s s' K.
 Proof.
   intros c s from to amt s' K HI H; unfold send in H.
   destruct (amt <=? 0) eqn:Ea; [discriminate|]. apply Z.leb_gt in Ea.
-  destruct (debit c s from amt) as [s1|] eqn:Ed; [|discriminate]. inversion H; subst; clear H.
+  destruct (debit c s from (amt, 0)) as [s1|] eqn:Ed; [|discriminate]. inversion H; subst; clear H.
   destruct (debit_spec _ _ _ _ _ Ed) as [Hc _].
   apply good_core; [exact HI | rewrite credit_core; exact Hc|].
-  intros x Hx. pose proof (credit_bal s1 to amt x ltac:(lia)). rewrite <- (debit_keeps_sanctioned _ _ _ _ _ x Ed Hx). exact H.
+  intros x Hx. eapply keep_then_le; [eapply debit_keeps_sanctioned; eauto|].
+  apply credit_bal; unfold nn2; cbn [fst snd]; lia.
 Qed.
 
 Lemma all_pos_nonneg : forall l, all_pos l = true -> forall d, In d l -> 0 <= snd d.
@@ -813,11 +839,14 @@ Proof.
   intros c s from outs s' K HI H; unfold multi_send in H.
   destruct outs as [|o r]; [discriminate|]. remember (o :: r) as outs.
   destruct (all_pos outs) eqn:Ep; cbn [negb] in H; [|discriminate].
-  destruct (debit c s from (sum_amts outs)) as [s1|] eqn:Ed; [|discriminate]. inversion H; subst s'; clear H.
+  destruct (debit c s from (sum_amts outs, 0)) as [s1|] eqn:Ed; [|discriminate]. inversion H; subst s'; clear H.
   destruct (debit_spec _ _ _ _ _ Ed) as [Hc _].
-  destruct (refund_all_spec outs s1 (all_pos_nonneg _ Ep)) as [Hc2 Hb2].
+  assert (Hnn : forall d, In d (map (fun o => (fst o, (snd o, 0))) outs) -> nn2 (snd d)).
+  { intros d Hd; apply in_map_iff in Hd; destruct Hd as [d0 [E Hin]]; subst d; unfold nn2; cbn [fst snd].
+    pose proof (all_pos_nonneg _ Ep _ Hin); lia. }
+  destruct (refund_all_spec _ s1 Hnn) as [Hc2 Hb2].
   apply good_core; [exact HI | rewrite Hc2; exact Hc|].
-  intros x Hx. rewrite <- (debit_keeps_sanctioned _ _ _ _ _ x Ed Hx). apply Hb2.
+  intros x Hx. eapply keep_then_le; [eapply debit_keeps_sanctioned; eauto | apply Hb2].
 Qed.
 
 Lemma sum_amts_nonneg : forall l, (forall d, In d l -> 0 <= snd d) -> 0 <= sum_amts l.
@@ -837,7 +866,8 @@ Proof.
   destruct (debit_all c s ins) as [s1|] eqn:Ed; [|discriminate]. inversion H; subst s'; clear H.
   destruct (debit_all_spec _ _ _ _ Ed) as [Hc Hb].
   apply good_core; [exact HI | rewrite credit_core; exact Hc|].
-  intros x Hx. rewrite <- (Hb x Hx). apply credit_bal. apply sum_amts_nonneg. apply all_pos_nonneg; exact Ep.
+  intros x Hx. eapply keep_then_le; [exact (Hb x Hx)|].
+  apply credit_bal. unfold nn2; cbn [fst snd]. pose proof (sum_amts_nonneg ins (all_pos_nonneg _ Ep)). lia.
 Qed.
 
 Lemma to_module_good : forall c s from amt s' K, Inv c s -> to_module c s from amt = Some s' -> good c s s' K.
@@ -846,7 +876,7 @@ Proof.
   destruct (amt <=? 0); [discriminate|].
   destruct (debit_spec _ _ _ _ _ H) as [Hc _].
   apply good_core; [exact HI | exact Hc|].
-  intros x Hx. rewrite (debit_keeps_sanctioned _ _ _ _ _ x H Hx). lia.
+  intros x Hx. destruct (debit_keeps_sanctioned _ _ _ _ _ x H Hx) as [K1 K2]. unfold bal_le; lia.
 Qed.
 
 Definition cancel_of (o : op) (p : N) : Prop := exists who, o = OCancel who p.
@@ -854,12 +884,12 @@ Definition cancel_of (o : op) (p : N) : Prop := exists who, o = OCancel who p.
 Lemma step_good : forall c s o s', Inv c s -> step_opt c s o = Some s' -> good c s s' (cancel_of o).
 Proof.
   intros c s o s' HI H; destruct o; cbn [step_opt] in H.
-  - destruct (dep <? 0); [discriminate|]. eapply submit_good; eauto.
-  - destruct (amt <=? 0); [discriminate|]. eapply add_deposit_good; eauto.
+  - destruct (negb (nonneg2 dep)); [discriminate|]. eapply submit_good; eauto.
+  - destruct (negb (nonneg2 amt) || zero2 amt); [discriminate|]. eapply add_deposit_good; eauto.
   - eapply vote_good; eauto.
   - destruct (cancel_good _ _ _ _ _ HI H) as [A1 [A2 [A3 A4]]]. unfold good; splits; auto.
     intros p H1 H2; destruct (A4 p H1 H2) as [E|E]; [left; exists who; subst; reflexivity | right; exact E].
-  - inversion H; subst; clear H. eapply good_of_res; [apply end_block_good; exact HI | reflexivity | reflexivity].
+  - inversion H; subst; clear H. eapply good_of_res; [apply end_block_good; exact HI | reflexivity | reflexivity | reflexivity].
   - destruct authority_ok; [|discriminate]. eapply exec_msg_good; eauto.
   - eapply send_good; eauto.
   - eapply multi_send_good; eauto.
@@ -867,7 +897,7 @@ Proof.
   - eapply to_module_good; eauto.
   - eapply to_module_good; eauto.
   - destruct (amt <? 0) eqn:Ea; [discriminate|]. apply Z.ltb_ge in Ea. inversion H; subst; clear H.
-    apply good_core; [exact HI | reflexivity|]. intros x _; apply credit_bal; exact Ea.
+    apply good_core; [exact HI | reflexivity|]. intros x _; apply credit_bal; unfold nn2; cbn [fst snd]; lia.
 Qed.
 
 (** * Histories *)
@@ -922,23 +952,24 @@ Proof.
 Qed.
 
 Lemma no_outflow : forall c s o a, Inv c s -> is_sanctioned c s a = true ->
-  bal s a <= bal (fst (step c s o)) a.
+  bal s a <= bal (fst (step c s o)) a /\ balb s a <= balb (fst (step c s o)) a.
 Proof.
   intros c s o a HI Ha; destruct (step_cases c s o) as [[s' [H1 H2]]|[H1 H2]]; rewrite H2; cbn [fst]; [|lia].
   destruct (step_good _ _ _ _ HI H1) as [_ [G _]]; apply G; exact Ha.
 Qed.
 
 Lemma inflow_allowed : forall c s from to amt,
-  0 < amt <= bal s from -> is_sanctioned c s from = false -> from <> to ->
+  0 < amt <= bal s from -> 0 <= balb s from -> is_sanctioned c s from = false -> from <> to ->
   exists s', step c s (OSend from to amt) = (s', true) /\ bal s' to = bal s to + amt.
 Proof.
-  intros c s from to amt [Ha Hb] Hs Hne.
-  unfold step; cbn [step_opt]; unfold send, debit.
+  intros c s from to amt [Ha Hb] Hbb Hs Hne.
+  unfold step; cbn [step_opt]; unfold send, debit, nonneg2, le2; cbn [fst snd].
   destruct (amt <=? 0) eqn:E1; [apply Z.leb_le in E1; lia|].
-  destruct (amt <? 0) eqn:E2; [apply Z.ltb_lt in E2; lia|].
-  destruct (bal s from <? amt) eqn:E3; [apply Z.ltb_lt in E3; lia|].
-  rewrite Hs. eexists; split; [reflexivity|].
-  cbn [credit bal set_bal]; unfold upd. rewrite N.eqb_refl.
+  destruct (0 <=? amt) eqn:E2; [|apply Z.leb_gt in E2; lia].
+  destruct (amt <=? bal s from) eqn:E3; [|apply Z.leb_gt in E3; lia].
+  destruct (0 <=? balb s from) eqn:E4; [|apply Z.leb_gt in E4; lia].
+  cbn [Z.leb andb negb]. rewrite Hs. eexists; split; [reflexivity|].
+  cbn [credit bal set_bal fst snd]; unfold upd. rewrite N.eqb_refl.
   assert (N.eqb to from = false) by (apply N.eqb_neq; congruence). rewrite H; reflexivity.
 Qed.
 
